@@ -443,6 +443,10 @@ Definition dec_bytes_fresh (D : dopts) (f : nat) (b : list N) : res (list N * li
    The bodies are written against their recursive callees (open recursion) so that the
    lemmas can be stated per body; the fixpoints below tie the knot on the fuel. *)
 
+(* a finite bignum / decimal fraction / bigfloat beyond the float64 range is an overflow error, not +-Inf
+   (C07 repairs 2744cde, 1ee17b7) *)
+Definition finite_or_err (x : N) : res N := if f64_is_inf x then Err EOverflow else Ok x.
+
 (* decTagInteger (F02-5): the exponent / mantissa of a decimal fraction or bigfloat *)
 Definition dec_tag_int (b : list N) : res (Z * list N) :=
   match b with
@@ -477,7 +481,7 @@ Section Bodies.
     else if t =? 1 then
       liftI r (do (x, b3) <- dec_float64 D f' b2 ;; do i <- time_of_float x ;; Ok (i, b3))
     else if (t =? 2) || (t =? 3) then
-      liftI r (do (s, b3) <- dec_bytes_fresh D f' b2 ;; Ok (IF64 (f64_of_bigint (t =? 3) (be_get s)), b3))
+      liftI r (do (s, b3) <- dec_bytes_fresh D f' b2 ;; do x <- finite_or_err (f64_of_bigint (t =? 3) (be_get s)) ;; Ok (IF64 x, b3))
     else if (t =? 4) || (t =? 5) then
       liftI r (match b2 with
                | [] => Err EEof
@@ -485,7 +489,8 @@ Section Bodies.
                    if nn =? 130 then                     (* 0x82, since F10-1 (was 82) *)
                      do (e, b4) <- dec_tag_int b3 ;;
                      do (m, b5) <- dec_tag_int b4 ;;
-                     Ok (IF64 (if t =? 4 then f64_decimal m e else f64_bigfloat m e), b5)
+                     do x <- finite_or_err (if t =? 4 then f64_decimal m e else f64_bigfloat m e) ;;
+                     Ok (IF64 x, b5)
                    else Err EBadDesc
                end)
     else if (t =? 55799) || do_skiptags D then
